@@ -33,6 +33,15 @@ CHECKS = {
  "C06": dict(level="exploration", design="§3 C06",
    technique="bounded-exhaustive enumeration of all action lists up to length 3 x routes x amounts on an instrumented replica with a denomination-changing test controller registered under ACTION_SWAP, against a reference interpreter",
    text="All 40 action lists of length 0..3 over {FEE(bps), FEE(fixed), SWAP} x {internal, cctp, hyp} x 4 amounts are executed with and without the SWAP controller registered (thorough: from 6 prior states): lists repeating an identifier or naming an action without controller must be refused; otherwise each action must see its predecessor's coin (recorded), the single route request and the ledger sink must carry exactly the final coin, and statistics must show one or two entries."),
+ "C09": dict(level="model_checking", design="§3 C09",
+   technique="explicit-state BFS to fixpoint over pause/unpause-action messages (thorough: crossed with the C08 pause universe) with a lock-step reference model; 13 probe payloads and both queries in every state; differential comparison with the unpaused state",
+   text="All states reachable by Pause/UnpauseAction for every identifier (valid, unsupported, unknown, numeric, empty; authority and non-authority signers) are enumerated to fixpoint (quick 4, thorough 256 states with the C08 quick universe); in every state payloads with/without each action in both orders, on the deployed controller set and with a second controller registered under ACTION_SWAP, must be executed iff none of their actions is paused; payloads without a paused action must give byte-identical acks and ledger deltas as in the unpaused state; queries equal the model."),
+ "C10": dict(level="exploration", design="§3 C10",
+   technique="bounded-exhaustive enumeration of the Msg RPC surface discovered at run time from the registered protobuf service descriptors x signer strings x reflection-generated bodies x states, through the application's Msg service router",
+   text="Every Msg RPC of every service under noble.orbiter* found in the merged descriptor registry (8 today; a new one is picked up automatically, one without route or signer option is reported) x ~19 non-authority signer strings (other accounts, module accounts, malformed/mixed-case/Unicode-fold/other-HRP/bech32m/space-padded spellings of the authority, empty) x (valid body, zero body, all combinations of per-field value menus) x 4 states must fail and leave the full-store hash unchanged; the authority with the valid body must succeed."),
+ "C18": dict(level="model_checking", design="§3 C18",
+   technique="explicit-state BFS to fixpoint over parameter updates and genesis (re)initialisation with a last-value-set reference model; passthrough-length probes on 3 routes in every state on an instrumented replica that records call order",
+   text="All parameter states reachable by UpdateParams (authority / non-authority), InitGenesis(params=v) and export->init round trips over the value menu {0,1,2,64,2^32-1} (thorough adds 63,65,8192,30000 and pauses) are enumerated to fixpoint, plus the 'params never set' store; in every state passthrough lengths {0,1,2,3,63,64,65,8192,20000,30000} x {cctp,hyp,internal} must be refused for size iff longer than the limit in force, before the wrapped ICS-20 app is called, and must succeed otherwise (below ICS-20's own memo cap); the Params query equals the model."),
 }
 
 NOT_YET = {}
